@@ -115,10 +115,11 @@ def _plain_frame(rng, sa, da, kind, payload):
 
 
 async def _part_plain(ctx, rng, n):
-    keyed = {g: rng.randbytes(16) for g in rng.sample(range(1, 0x10000), 3)}
+    gas_drawn = rng.sample(range(1, 0x10000), 6)
+    keyed = {g: rng.randbytes(16) for g in gas_drawn[:3]}
     if rng.random() < 0.5:
         keyed[0] = rng.randbytes(16)
-    unkeyed = [g for g in rng.sample(range(1, 0x10000), 3) if g not in keyed]
+    unkeyed = gas_drawn[3:]
     senders = {a: 0 for a in rng.sample(range(1, 0x10000), 3)}
     bench = Bench(keyed, unkeyed, senders, own=0x1001)
     await bench.start()
@@ -192,8 +193,9 @@ def _dst_of(raw):
 
 
 async def _part_outgoing(ctx, rng, rounds):
-    keyed = {g: rng.randbytes(16) for g in rng.sample(range(1, 0x10000), 3)}
-    unkeyed = [g for g in rng.sample(range(1, 0x10000), 2) if g not in keyed]
+    gas_drawn = rng.sample(range(1, 0x10000), 5)
+    keyed = {g: rng.randbytes(16) for g in gas_drawn[:3]}
+    unkeyed = gas_drawn[3:]
     own = 0x1105
     exhaust = rng.random() < 0.3
     start = SEQ_MAX - rng.randrange(0, 4) if exhaust else rng.randrange(1, SEQ_MAX - 10_000)
@@ -310,9 +312,10 @@ def _inner_corpus(ctx, rng):
 
 
 async def _part_noraise(ctx, rng, loop):
-    keyed = {g: rng.randbytes(16) for g in rng.sample(range(1, 0x10000), 2)}
+    gas_drawn = rng.sample(range(1, 0x10000), 3)  # one draw: keyed and unkeyed addresses can not coincide
+    keyed = {g: rng.randbytes(16) for g in gas_drawn[:2]}
     keyed[0] = rng.randbytes(16)
-    unkeyed = rng.sample(range(1, 0x10000), 1)
+    unkeyed = gas_drawn[2:]
     known = rng.sample(range(2, 0x10000), 2)
     bench = Bench(keyed, unkeyed, {a: 0 for a in known}, own=0x1001)
     await bench.start()
@@ -457,8 +460,9 @@ class _Pool:
 
 
 async def _part_callback_mutation(ctx, rng, loop):
-    keyed = {g: rng.randbytes(16) for g in rng.sample(range(1, 0x10000), 2)}
-    unkeyed = rng.sample(range(1, 0x10000), 1)
+    gas_drawn = rng.sample(range(1, 0x10000), 3)  # one draw: keyed and unkeyed addresses can not coincide
+    keyed = {g: rng.randbytes(16) for g in gas_drawn[:2]}
+    unkeyed = gas_drawn[2:]
     known = rng.sample(range(2, 0x10000), 2)
     bench = Bench(keyed, unkeyed, {a: 0 for a in known}, own=0x1001)
     tq = bench.xknx.telegram_queue
@@ -509,7 +513,8 @@ async def _part_callback_mutation(ctx, rng, loop):
             ctx.count("mutation_frames")
             ctx.count(f"mutation_frame_{what}")
             ctx.distinct(("cbmut", what, out.kind(), len(issue_pool.touched), len(tele_pool.touched)))
-            wit = {"raw": raw, "frame": what, "key_issue_callbacks": [(c.name, c.registered, c.calls - before_i.get(c, 0)) for c in issue_pool.cbs],
+            wit = {"raw": raw, "frame": what, "keyed_gas": sorted(keyed), "unkeyed_ga": unkeyed[0], "known_senders": known,
+                   "key_issue_callbacks": [(c.name, c.registered, c.calls - before_i.get(c, 0)) for c in issue_pool.cbs],
                    "telegram_callbacks": [(c.name, c.registered, c.calls - before_t.get(c, 0)) for c in tele_pool.cbs], "outcome": out.kind()}
             if out.exc is not None or len(loop.exceptions) > nexc:
                 name = type(out.exc).__name__ if out.exc is not None else "in-loop-handler"
@@ -545,7 +550,9 @@ async def _part_callback_mutation(ctx, rng, loop):
         if len(bench.cb_all) == before + 1:
             ctx.count("consumer_alive_after_callback_mutation")
         else:
-            ctx.violation("telegram-consumer-dead-after-callback-mutation", {}, "consumer no longer delivers after self-unregistering callbacks")
+            ctx.violation("telegram-consumer-dead-after-callback-mutation",
+                          {"keyed_gas": sorted(keyed), "unkeyed_ga": unkeyed[0], "known_senders": known,
+                           "telegram_callbacks": [(c.name, c.registered, c.calls) for c in tele_pool.cbs]}, "consumer no longer delivers after self-unregistering callbacks")
     finally:
         await bench.stop()
 
